@@ -3,6 +3,7 @@ from .model import short, const_val
 from .roles import Roles, role_effects
 from .util import (calls_to, origins, where, is_call_to, region_dominated, find_bool_split, bool_switches, leaf_origins,
                    field_stores, in_cycle, const_origin)
+from .fields import pf, fq
 from . import tables
 
 EXPLANATION = (
@@ -119,8 +120,8 @@ def check_writer(ctx, prog, R, eff, kind, fn, r_rec, piece):
     ctx.check(not (may_fit & {"SLOT_PUSH", "SLOT_POP", "EXTEND"}), "writer-arms", kind + ":fit:no-alloc",
               "an in-place rewrite of a %s record touches the free lists / extends the file (%s)" % (kind, sorted(may_fit & {"SLOT_PUSH", "SLOT_POP", "EXTEND"})), where=where(fn, fit_entry))
     ctx.check(eff.must_from(fn, fit_entry, r_rec) is True, "writer-arms", kind + ":fit:writes", "the in-place arm can return Ok without writing the record", where=where(fn, fit_entry))
-    size_stores = [(b, s) for f, b, s in field_stores(prog, piece + ".size") if f.id == fn.id]
-    off_stores = [(b, s) for f, b, s in field_stores(prog, piece + ".offset") if f.id == fn.id]
+    size_stores = [(b, s) for f, b, s in field_stores(prog, pf(prog, piece, "size")) if f.id == fn.id]
+    off_stores = [(b, s) for f, b, s in field_stores(prog, pf(prog, piece, "offset")) if f.id == fn.id]
     fit_sz = [(b, s) for b, s in size_stores if b in r_fit]
     ctx.check(len(fit_sz) == 1 and role_o(prog, R, fn, origins(prog, fn, fit_sz[0][1]["rhs"].get("a", {}), at=fit_sz[0][0]), "R_PIECE_SIZE"),
               "writer-arms", kind + ":fit:keeps-old-size", "an in-place rewrite does not keep the slot's stored size (the slot would shrink and its tail be lost)", where=where(fn, fit_entry))
@@ -133,7 +134,7 @@ def check_writer(ctx, prog, R, eff, kind, fn, r_rec, piece):
     for b, t in pushes:
         o1 = origins(prog, fn, t["args"][1], at=b)
         o2 = origins(prog, fn, t["args"][2], at=b)
-        ctx.check(bool(o1) and all(x.kind == "param" and x.data == 2 and x.proj and x.proj[-1].endswith(piece + ".offset") for x in o1) and role_o(prog, R, fn, o2, "R_PIECE_SIZE"),
+        ctx.check(bool(o1) and all(x.kind == "param" and x.data == 2 and x.proj and x.proj[-1].endswith(pf(prog, piece, "offset")) for x in o1) and role_o(prog, R, fn, o2, "R_PIECE_SIZE"),
                   "writer-arms", kind + ":grow:frees-own-slot", "the slot freed when a record moves is not (its old offset, its old stored size)", where=where(fn, b))
         ctx.check(all(pb in fn.reachable(fn.normal_succs(b)) and b not in fn.reachable(fn.normal_succs(pb)) for pb, _ in pops),
                   "writer-arms", kind + ":grow:push-before-pop", "the old slot is freed after the new one is taken", where=where(fn, b))
@@ -320,7 +321,7 @@ def check_large_pop(ctx, prog, R, eff):
     for r_write, piece in (("KEY_WRITE_PIECE", "KeyPiece"), ("VAL_WRITE_PIECE", "ValuePiece")):
         w = R.need(r_write)
         pops = calls_to(prog, w, target_fn=R.need("SLOT_POP"))
-        st = [(b, s) for f, b, s in field_stores(prog, piece + ".size") if f.id == w.id and pops and w.dominates(pops[0][0], b)]
+        st = [(b, s) for f, b, s in field_stores(prog, pf(prog, piece, "size")) if f.id == w.id and pops and w.dominates(pops[0][0], b)]
         a_ok = False
         for b, s in st:
             os_ = origins(prog, w, s["rhs"].get("a", {}), at=b)
